@@ -39,7 +39,7 @@ ASSUMPTIONS = [
     "writes go to index 0 (plus the model's initialisation write to all indices of a fresh slot), as in the statement",
     "values are small integers stored as floats: additive results are exact, comparison is bitwise",
 ]
-PROBES = ["observation_sparse", "observation_end", "depth_changed_during_run", "shift_none_grows", "shift_on_empty", "additive_after_shift", "alias_probe_get", "alias_probe_set",
+PROBES = ["observation_sparse", "observation_end", "interface_variable_same_name", "interface_variable", "depth_changed_during_run", "shift_none_grows", "shift_on_empty", "additive_after_shift", "alias_probe_get", "alias_probe_set",
           "rejected_additive_empty", "rejected_negative_index", "rejected_no_index", "rejected_two_indices_get", "rejected_get_beyond_depth",
           "rejected_shift_negative", "rejected_shift_location", "set_both_locations", "integer_dtype_value", "depth_ge3_filled", "init_all_indices", "depth3_window_filled"]
 
@@ -304,8 +304,21 @@ def build_system(ch):
     mdg = pp.MixedDimensionalGrid()
     mdg.add_subdomains([g1, g2])
     es = pp.ad.EquationSystem(mdg)
+    with_intf = ch.flag()
+    if with_intf:
+        # an interface between the two grids; subdomain and interface ids are numbered independently, so the interface
+        # has the id of the first subdomain - and may carry a variable of the same name as the subdomains
+        from porepy.grids.mortar_grid import MortarSides
+        import scipy.sparse as sps
+
+        side = pp.CartGrid([g2.num_cells])
+        side.compute_geometry()
+        intf = pp.MortarGrid(1, {MortarSides.LEFT_SIDE: side}, primary_secondary=None, codim=1)
+        mdg.add_interface(intf, (g1, g2), sps.identity(1))
     a = es.create_variables("a", {"cells": 1}, subdomains=[g1, g2])
     b = es.create_variables("b", {"cells": ch.rng(1, 2)}, subdomains=[g1])
+    if with_intf:
+        es.create_variables("a" if ch.flag() else "c", {"cells": 1}, interfaces=[intf])
     return es, a, b
 
 
@@ -313,7 +326,9 @@ def run_eqsys(ch, tr: Trace) -> None:
     with ch.span("config"):
         es, a, b = build_system(ch)
         fixed_depth = {loc: ch.choice([2, 1, 3, None]) for loc in LOCS}
-    atoms = list(es.variables)  # chronological: a@g1, a@g2, b@g1
+    atoms = list(es.variables)  # chronological: a@g1, a@g2, b@g1 (, a|c@interface)
+    if len(atoms) > 3:
+        tr.probe("interface_variable_same_name" if atoms[3].name == "a" else "interface_variable")
     model = {(loc, v.id): Window() for loc in LOCS for v in atoms}
     counter = [0]
     tr.emit("config", [int(es.dofs_of([v]).size) for v in atoms], [fixed_depth[l] for l in LOCS])
@@ -323,7 +338,9 @@ def run_eqsys(ch, tr: Trace) -> None:
         return [es._variables[i] for i in es._variable_numbers if i in ids]
 
     def pick_vars():
-        mode = ch.draw(4)
+        mode = ch.draw(5)
+        if mode == 4:
+            return ["a"], [v for v in atoms if v.name == "a"]  # by name: every variable called "a", on any kind of grid
         if mode == 0:
             return None, atoms
         if mode == 1:
